@@ -70,7 +70,8 @@ def scenario(draw):
     drivers = [[{"at_ms": 2 * i, "op": op, "pid": c} for i, (op, c) in enumerate(callers["outside"])]]
     for flv in ALL:
         if callers[flv]:
-            program = [["sleep", 2]]
+            first = draw(st.sampled_from([0, 0, 2]))  # 0: the caller acts the moment it starts (while the runtime still unqueues)
+            program = [["sleep", first]] if first else []
             for op, c in callers[flv]:
                 program += [[op, c], ["sleep", 1]]
             program.append(["beat", 3, 1000000])
